@@ -209,12 +209,28 @@ def _structure_case(case):
     func = "DistributedShampoo.distributed_state_dict"
     out = []
     opt, params, names = make(name)
+    # snapshot of every tensor reachable from the freshly constructed optimizer: whatever the first steps (warm-up, first refresh, later
+    # refreshes) mutate must be a parameter or end up in the saved state — also flags that flip only once (e.g. at the first refresh)
+    all0 = []
+    _walk_tensors(vars(opt), set(), all0)
+    before0 = [(t, t.detach().clone()) for t in all0 if t.numel() > 0]
     for t in range(3):
         for p in params:
             p.grad = torch.randn(p.shape)
         opt.step()
     sd = opt.distributed_state_dict(key_to_param=iter(names))
     rp = dict(kind="resume", cfg=name)
+    saved0 = {t.data_ptr() for t in _saved_tensors(sd)}
+    mutated0 = []
+    for t, old in before0:
+        if not torch.equal(t.detach(), old) and t.data_ptr() not in saved0:
+            base = t.untyped_storage().data_ptr()
+            if any(base == p.untyped_storage().data_ptr() for p in params) or any(p.grad is not None and base == p.grad.untyped_storage().data_ptr() for p in params):
+                continue
+            mutated0.append((tuple(t.shape), str(t.dtype)))
+    out.append(result(f"DistributedShampoo.step/tensors-mutated-since-construction-are-parameters-or-saved-state[{case}]", "DistributedShampoo.step",
+                      "discharged" if not mutated0 else "violated", backend="object-graph scan", case=case,
+                      text=f"{len(before0)} tensors reachable from the freshly constructed optimizer; mutated by the first three steps and neither parameter nor saved: {mutated0[:4]}", replay=rp))
     # completeness w.r.t. optimizer.state
     st_t = []
     _walk_tensors(dict(opt.state), set(), st_t)
